@@ -194,19 +194,27 @@ def random_case(seed):
     two = rng.random() < 0.5
     nsh = 1 if lmax == 7 else rng.randint(1, 3)
     o0 = mk(nsh)
-    ev = {"op": "Reference", "seed": seed, "lmax": lmax, "two": two, "sym": True, "psd": True, "transpose": True}
+    ev = {"op": "Reference", "seed": seed, "lmax": lmax, "two": two, "othergeom": False, "sym": True, "psd": True, "transpose": True}
+    # deviations are measured against the norms of the two functions, sqrt(<i|i><j|j>) from the reference evaluator: an element
+    # that is small because the functions hardly overlap (or cancel) carries the rounding error of its large contributions
+    d0 = np.sqrt(np.abs(np.diag(ref_overlap(o0, xyz))))
     if two:
         o1 = mk(1 if lmax == 7 else rng.randint(1, 2))
-        S = compute_overlap(o0, xyz, o1, xyz)
-        R = ref_overlap(o0, xyz, o1, xyz)
-        ev["transpose"] = bool(np.array_equal(compute_overlap(o1, xyz, o0, xyz), S.T) or np.allclose(compute_overlap(o1, xyz, o0, xyz), S.T, rtol=1e-13, atol=1e-15))
+        # the second basis has its own geometry: the same centre index does not mean the same position
+        xyz1 = xyz if rng.random() < 0.4 else xyz + np.array([[rng.uniform(-1.5, 1.5) for _ in range(3)] for _ in range(ncenter)])
+        ev["othergeom"] = xyz1 is not xyz
+        d1 = np.sqrt(np.abs(np.diag(ref_overlap(o1, xyz1))))
+        scale = np.outer(d0, d1) + 1e-300
+        S = compute_overlap(o0, xyz, o1, xyz1)
+        R = ref_overlap(o0, xyz, o1, xyz1)
+        ev["transpose"] = bool(np.all(np.abs(compute_overlap(o1, xyz1, o0, xyz) - S.T) <= 1e-13 * scale.T))
     else:
+        scale = np.outer(d0, d0) + 1e-300
         S = compute_overlap(o0, xyz)
         R = ref_overlap(o0, xyz)
-        ev["sym"] = bool(np.allclose(S, S.T, rtol=1e-13, atol=1e-15))
-        ev["psd"] = bool(np.linalg.eigvalsh((S + S.T) / 2).min() >= -1e-10 * max(1.0, np.abs(S).max()))
-    scale = max(1e-300, np.abs(R).max())
-    ev["maxrel"] = float(np.abs(S - R).max() / scale)
+        ev["sym"] = bool(np.all(np.abs(S - S.T) <= 1e-13 * scale))
+        ev["psd"] = bool(np.linalg.eigvalsh((S + S.T) / 2 / scale).min() >= -1e-10)
+    ev["maxrel"] = float((np.abs(S - R) / scale).max())
     ev["same"] = bool(ev["maxrel"] <= 1e-10)
     return ev
 
